@@ -68,7 +68,8 @@ Lemma H_switch m : H (switch_layer m) <-> H m. Proof. reflexivity. Qed.
 
 (* ------------------------------------------------------------------ relation inside negotiateFeatures *)
 
-Record RI (x : option feature) (m : mstate) : Prop := mkRI {
+Record RI (rv : bool) (x : option feature) (m : mstate) : Prop := mkRI {
+  ri_recv : q_recv (Q m) = rv;
   ri_bits : q_last (Q m) = m_bits m;
   ri_negd : q_negd (Q m) = m_negd m;
   ri_cache : q_cache (Q m) = m_cache m;
@@ -125,52 +126,52 @@ Definition frame (m m' : mstate) : Prop :=
 Lemma frame_refl m : frame m m.
 Proof. unfold frame. tauto. Qed.
 
-Lemma RI_frame x m m' : frame m m' -> Q m' = Q m -> RI x m -> RI x m'.
+Lemma RI_frame rv x m m' : frame m m' -> Q m' = Q m -> RI rv x m -> RI rv x m'.
 Proof.
   intros (Fb & Fn & Fc & Fl & Ft) HQ R. destruct R.
   constructor; rewrite ?HQ, ?Fb, ?Fn, ?Fc, ?Fl; auto.
 Qed.
 
 (* reading the reply inside STARTTLS's Negotiate *)
-Lemma read_reply_ok x m m' r :
-  read RPReply m = (m', r) -> H m -> RI x m -> H m' /\ Q m' = Q m /\ frame m m'.
+Lemma read_reply_ok rv x m m' r :
+  read RPReply m = (m', r) -> H m -> RI rv x m -> H m' /\ Q m' = Q m /\ frame m m'.
 Proof.
   unfold read. intros E HH R. destruct (m_in m) as [|it rest]; inversion E; subst; clear E.
-  - destruct (emit_quiet (EEof RPReply) m HH I (ri_hdr _ _ R) (ri_ref _ _ R)) as [A B].
+  - destruct (emit_quiet (EEof RPReply) m HH I (ri_hdr _ _ _ R) (ri_ref _ _ _ R)) as [A B].
     repeat split; auto.
   - assert (Hq : quiet (Q (set_in rest m)) (EIn RPReply (m_bits m) it)).
-    { simpl. rewrite Q_set_in, (ri_bits _ _ R). apply has_refl. }
-    destruct (emit_quiet _ (set_in rest m) HH Hq (ri_hdr _ _ R) (ri_ref _ _ R)) as [A B].
+    { simpl. rewrite Q_set_in, (ri_bits _ _ _ R). apply has_refl. }
+    destruct (emit_quiet _ (set_in rest m) HH Hq (ri_hdr _ _ _ R) (ri_ref _ _ _ R)) as [A B].
     repeat split; auto.
 Qed.
 
-Lemma starttls_negotiate_ok x m m1 o :
-  starttls_negotiate c m = (m1, o) -> H m -> RI x m ->
+Lemma starttls_negotiate_ok rv x m m1 o :
+  starttls_negotiate c m = (m1, o) -> H m -> RI rv x m ->
   H m1 /\ Q m1 = Q m /\ frame m m1 /\ (o_err o = false -> o_restart o = true).
 Proof.
   unfold starttls_negotiate. intros E HH R.
   destruct (server m).
   - inversion E; subst; clear E.
-    destruct (emit_quiet (EOut (WElem ns_StartTLS str_proceed)) m HH I (ri_hdr _ _ R) (ri_ref _ _ R)) as [A B].
+    destruct (emit_quiet (EOut (WElem ns_StartTLS str_proceed)) m HH I (ri_hdr _ _ _ R) (ri_ref _ _ _ R)) as [A B].
     set (m2 := emit (EOut (WElem ns_StartTLS str_proceed)) m) in *.
     assert (A' : H (switch_layer m2)) by exact A.
-    assert (Hh : q_need_header (Q (switch_layer m2)) = false) by (rewrite Q_switch, B; apply (ri_hdr _ _ R)).
-    assert (Hr : q_refused (Q (switch_layer m2)) = None) by (rewrite Q_switch, B; apply (ri_ref _ _ R)).
+    assert (Hh : q_need_header (Q (switch_layer m2)) = false) by (rewrite Q_switch, B; apply (ri_hdr _ _ _ R)).
+    assert (Hr : q_refused (Q (switch_layer m2)) = None) by (rewrite Q_switch, B; apply (ri_ref _ _ _ R)).
     destruct (emit_quiet (ESwitch (tls_name c)) (switch_layer m2) A' I Hh Hr) as [A2 B2].
     split; [exact A2|]. split; [rewrite B2, Q_switch; exact B|]. split; [unfold frame; simpl; tauto | reflexivity].
-  - destruct (emit_quiet (EOut (WElem ns_StartTLS str_starttls)) m HH I (ri_hdr _ _ R) (ri_ref _ _ R)) as [A B].
+  - destruct (emit_quiet (EOut (WElem ns_StartTLS str_starttls)) m HH I (ri_hdr _ _ _ R) (ri_ref _ _ _ R)) as [A B].
     set (m0 := emit (EOut (WElem ns_StartTLS str_starttls)) m) in *.
-    assert (R0 : RI x m0) by (apply (RI_frame x m m0); [unfold frame; simpl; tauto | exact B | exact R]).
+    assert (R0 : RI rv x m0) by (apply (RI_frame rv x m m0); [unfold frame; simpl; tauto | exact B | exact R]).
     destruct (read RPReply m0) as [m2 r] eqn:Er.
-    destruct (read_reply_ok x m0 m2 r Er A R0) as (A2 & B2 & F2).
-    assert (R2 : RI x m2) by (apply (RI_frame x m0 m2); auto).
+    destruct (read_reply_ok rv x m0 m2 r Er A R0) as (A2 & B2 & F2).
+    assert (R2 : RI rv x m2) by (apply (RI_frame rv x m0 m2); auto).
     assert (F02 : frame m m2).
     { unfold frame in *. simpl in F2. tauto. }
     destruct (is_proceed r).
     + inversion E; subst; clear E.
       assert (A' : H (switch_layer m2)) by exact A2.
-      assert (Hh : q_need_header (Q (switch_layer m2)) = false) by (rewrite Q_switch; apply (ri_hdr _ _ R2)).
-      assert (Hr : q_refused (Q (switch_layer m2)) = None) by (rewrite Q_switch; apply (ri_ref _ _ R2)).
+      assert (Hh : q_need_header (Q (switch_layer m2)) = false) by (rewrite Q_switch; apply (ri_hdr _ _ _ R2)).
+      assert (Hr : q_refused (Q (switch_layer m2)) = None) by (rewrite Q_switch; apply (ri_ref _ _ _ R2)).
       destruct (emit_quiet (ESwitch (tls_name c)) (switch_layer m2) A' I Hh Hr) as [A3 B3].
       split; [exact A3|]. split; [rewrite B3, Q_switch, B2; exact B|].
       split; [unfold frame in *; simpl; tauto | reflexivity].
@@ -182,8 +183,8 @@ Qed.
 Definition neg_ok (m : mstate) (f : feature) : Prop :=
   forall o, cl_all fs (Q m) (ENeg f (m_bits m) o).
 
-Lemma negotiate_one_ok x m f m1 o :
-  negotiate_one c m f = (m1, o) -> H m -> RI x m -> neg_ok m f ->
+Lemma negotiate_one_ok rv x m f m1 o :
+  negotiate_one c m f = (m1, o) -> H m -> RI rv x m -> neg_ok m f ->
   H m1 /\ Q m1 = upd fs ws (Q m) (ENeg f (m_bits m) o) /\ frame m m1.
 Proof.
   unfold negotiate_one. intros E HH R NK.
@@ -191,9 +192,837 @@ Proof.
   - inversion E; subst; clear E. rewrite H_emit, Q_emit. rewrite Q_set_outs.
     split; [split; [exact HH | apply NK]|]. split; [reflexivity | unfold frame; simpl; tauto].
   - destruct (starttls_negotiate c m) as [m2 o2] eqn:Es.
-    destruct (starttls_negotiate_ok x m m2 o2 Es HH R) as (A & B & F & _).
+    destruct (starttls_negotiate_ok rv x m m2 o2 Es HH R) as (A & B & F & _).
     inversion E; subst; clear E. rewrite H_emit, Q_emit, B.
     split; [split; [exact A | apply NK]|]. split; [reflexivity | unfold frame in *; simpl; tauto].
 Qed.
 
+(* ------------------------------------------------------------------ one pick *)
+
+(* why the picked feature may run *)
+Definition pick_ok (rv : bool) (x : option feature) (m : mstate) (req : bool) (f : feature) : Prop :=
+  f_neg f = true /\ mem (f_space f) (m_negd m) = false /\
+  (rv = true -> x = Some f) /\
+  ((In (req, f) (m_cache m) /\ eligible f (m_bits m) = true /\
+    (rv = false -> req = true ->
+     forall g, In (false, g) (m_cache m) -> cand (m_negd m) (m_bits m) (false, g) = false))
+   \/ (forced fs (Q m) f (m_bits m) /\ forall r, ~ In (r, f) (m_cache m))).
+
+Lemma pick_neg_ok rv x m req f : RI rv x m -> pick_ok rv x m req f -> neg_ok m f.
+Proof.
+  intros R (Pn & Pm & Px & Pc) o. destruct R.
+  unfold cl_all, cl_advertised, cl_prerequisites, cl_voluntary_first, cl_monotone, cl_restart, cl_advertises, cl_refuses.
+  rewrite ri_hdr0, ri_negd0, ri_bits0, ri_cache0, ri_exp0, ri_ref0, ri_recv0. unfold cached. rewrite ri_cache0.
+  repeat split; auto.
+  - destruct Pc as [(Pi & _)|(Pf & _)]; [left | right; exact Pf].
+    split; [eapply ri_adv0; eauto | exists req; exact Pi].
+  - destruct Pc as [(_ & Pe & _)|(Pf & _)]; auto.
+  - intros Hs Hc g Hg. destruct Pc as [(Pi & _ & Pv)|(_ & Pn')]; [|exfalso; eapply Pn'; eauto].
+    assert (E : (true, f) = (req, f)) by (apply (ukeys_unique (m_cache m)); auto).
+    inversion E; subst. apply Pv; auto.
+  - apply has_refl.
+  - discriminate.
+Qed.
+
+Definition PostPick (rv : bool) (m' : mstate) (r : res (option (N * bool))) : Prop :=
+  H m' /\ q_last (Q m') = m_bits m' /\ q_refused (Q m') = None /\ q_expect (Q m') = None /\
+  match r with
+  | Good None => RI rv None m'
+  | Good (Some (mask, restart)) =>
+      q_need_header (Q m') = restart /\
+      (restart = false -> RI rv None m') /\
+      (has (N.lor (m_bits m') mask) st_Ready = false -> N.lor (m_bits m') mask = m_bits m') /\
+      (has (N.lor (m_bits m') mask) st_Ready = true ->
+       q_self_ready (Q m') = true \/ (restart = false /\ ~ pending (Q m')))
+  | _ => True
+  end.
+
+Lemma after_pick_ok rv x m req f m' r :
+  after_pick c m req f = (m', r) -> H m -> RI rv x m -> pick_ok rv x m req f -> PostPick rv m' r.
+Proof.
+  unfold after_pick. intros E HH R PK.
+  destruct (negotiate_one c m f) as [m1 o] eqn:En.
+  destruct (negotiate_one_ok rv x m f m1 o En HH R (pick_neg_ok rv x m req f R PK)) as (A & B & (Fb & Fn & Fc & Fl & Ft)).
+  destruct R.
+  destruct (o_err o) eqn:Eerr.
+  - (* the feature failed *)
+    inversion E; subst; clear E. unfold PostPick.
+    rewrite Q_set_negd, B. simpl. rewrite Eerr. repeat split; auto.
+  - remember (set_bits (N.lor (m_bits m1) (o_mask o)) m1) as m2 eqn:Em2.
+    remember (set_negd (f_space f :: m_negd m2) m2) as m3 eqn:Em3.
+    assert (HQ : Q m3 = upd fs ws (Q m) (ENeg f (m_bits m) o)) by (subst m3 m2; rewrite Q_set_negd, Q_set_bits; exact B).
+    assert (Hb3 : m_bits m3 = N.lor (m_bits m) (o_mask o)) by (subst m3 m2; simpl; rewrite Fb; reflexivity).
+    assert (Hn3 : m_negd m3 = f_space f :: m_negd m) by (subst m3 m2; simpl; rewrite Fn; reflexivity).
+    assert (Hc3 : m_cache m3 = m_cache m) by (subst m3 m2; simpl; exact Fc).
+    assert (Hl3 : m_lreq m3 = m_lreq m) by (subst m3 m2; simpl; exact Fl).
+    assert (HR : o_restart o = false -> RI rv None m3).
+    { intro Er. constructor; rewrite ?HQ, ?Hb3, ?Hn3, ?Hc3, ?Hl3; simpl; rewrite ?Eerr, ?Er; auto.
+      - rewrite ri_negd0. reflexivity.
+      - rewrite has_ready_lor. intro X. apply orb_true_iff in X. destruct X as [X|X].
+        + rewrite (ri_rdy0 X). reflexivity.
+        + rewrite X. apply orb_true_r. }
+    assert (Hself : has (m_bits m3) st_Ready = true -> q_self_ready (Q m3) = true).
+    { rewrite HQ, Hb3, has_ready_lor. simpl. rewrite Eerr. intro X. apply orb_true_iff in X. destruct X as [X|X].
+      - rewrite (ri_rdy0 X). reflexivity.
+      - rewrite X. apply orb_true_r. }
+    assert (Hbase : H m3 /\ q_last (Q m3) = m_bits m3 /\ q_refused (Q m3) = None /\ q_expect (Q m3) = None).
+    { split; [subst m3 m2; exact A|]. rewrite HQ, Hb3. simpl. rewrite Eerr. auto. }
+    destruct (o_restart o || req) eqn:Ebr.
+    + inversion E; subst m' r; clear E. unfold PostPick. destruct Hbase as (X1 & X2 & X3 & X4).
+      split; [exact X1|]. split; [exact X2|]. split; [exact X3|]. split; [exact X4|].
+      split; [rewrite HQ; simpl; rewrite Eerr; apply andb_true_r|].
+      split; [exact HR|].
+      assert (Habs : N.lor (m_bits m3) (o_mask o) = m_bits m3).
+      { apply lor_absorb. rewrite Hb3. apply has_lor_r. }
+      destruct (m_lreq m3 || o_restart o) eqn:Elr.
+      * rewrite N.lor_0_r, Habs. split; [auto|]. intro X. left. apply Hself. exact X.
+      * apply orb_false_iff in Elr. destruct Elr as [El Er]. split.
+        -- intro X. exfalso. rewrite N.lor_assoc, has_ready_lor, has_refl, orb_true_r in X. discriminate.
+        -- intros _. right. split; [exact Er|].
+           intros (g & Hg & _). rewrite HQ in Hg. simpl in Hg. rewrite ri_cache0 in Hg.
+           assert (Y : m_lreq m3 = true) by (rewrite Hl3; eapply ri_lreq0; eauto).
+           congruence.
+    + apply orb_false_iff in Ebr. destruct Ebr as [Er _].
+      inversion E; subst m' r; clear E. unfold PostPick. destruct Hbase as (X1 & X2 & X3 & X4).
+      split; [exact X1|]. split; [exact X2|]. split; [exact X3|]. split; [exact X4|]. apply HR. exact Er.
+Qed.
+
+(* ------------------------------------------------------------------ the initiator's selection loop *)
+
+Lemma select_ok m m1 r :
+  select m = (m1, r) ->
+  Q m1 = Q m /\ frame m m1 /\
+  match r with
+  | Good None => candidates m = []
+  | Good (Some (req, f)) =>
+      In (req, f) (m_cache m) /\ cand (m_negd m) (m_bits m) (req, f) = true /\
+      (req = true -> forall g, In (false, g) (m_cache m) -> cand (m_negd m) (m_bits m) (false, g) = false)
+  | _ => True
+  end.
+Proof.
+  unfold select. intro E.
+  destruct (candidates m) as [|e0 cs] eqn:Ec.
+  - inversion E; subst. repeat split; auto.
+  - rewrite <- Ec in E. destruct (m_choices m) as [|ch rest].
+    + inversion E; subst. repeat split; auto.
+    + destruct (cache_get ch (candidates m)) as [[req f]|] eqn:Eg.
+      * simpl in E. destruct (req && existsb (fun x => negb (fst x)) (candidates m)) eqn:Ev;
+          inversion E; subst; clear E; (split; [reflexivity|]); (split; [unfold frame; simpl; tauto|]); [exact I|].
+        unfold candidates in Eg. apply cache_get_filter in Eg. destruct Eg as (G1 & G2 & _).
+        split; [exact G1|]. split; [exact G2|].
+        intros -> g Hg. simpl in Ev.
+        destruct (cand (m_negd m) (m_bits m) (false, g)) eqn:Ecg; [|reflexivity].
+        exfalso. assert (X : existsb (fun x => negb (fst x)) (candidates m) = true).
+        { apply existsb_exists. exists (false, g). split; [|reflexivity].
+          unfold candidates. apply filter_In. auto. }
+        congruence.
+      * inversion E; subst. repeat split; auto.
+Qed.
+
+(* what negotiateFeatures promises to negotiateSession *)
+Definition PostNF (m' : mstate) (r : res (N * bool)) : Prop :=
+  H m' /\ q_last (Q m') = m_bits m' /\
+  match r with
+  | Good (mask, restart) =>
+      q_refused (Q m') = None /\ q_expect (Q m') = None /\
+      q_need_header (Q m') = restart /\
+      (restart = false -> q_negd (Q m') = m_negd m') /\
+      (has (N.lor (m_bits m') mask) st_Ready = false -> N.lor (m_bits m') mask = m_bits m') /\
+      (has (N.lor (m_bits m') mask) st_Ready = true ->
+       q_self_ready (Q m') = true \/ (restart = false /\ ~ pending (Q m')))
+  | Bad e => forall e', q_refused (Q m') = Some e' -> e' = e
+  | Stuck => q_refused (Q m') = None
+  end.
+
+Lemma PostPick_NF rv m' r :
+  PostPick rv m' r ->
+  match r with
+  | Good (Some mr) => PostNF m' (Good mr)
+  | Good None => True
+  | Bad e => PostNF m' (Bad e)
+  | Stuck => PostNF m' Stuck
+  end.
+Proof.
+  intros (P1 & P2 & P3 & P3' & P4). destruct r as [[[mask restart]|]|e|]; auto.
+  - destruct P4 as (X1 & X2 & X3 & X4). unfold PostNF. repeat split; auto.
+    intro Er. apply (ri_negd _ _ _ (X2 Er)).
+  - unfold PostNF. repeat split; auto. intros e' X. congruence.
+  - unfold PostNF. repeat split; auto.
+Qed.
+
+Lemma cand_true negd st e :
+  cand negd st e = true -> mem (ckey e) negd = false /\ f_neg (snd e) = true /\ eligible (snd e) st = true.
+Proof.
+  unfold cand. rewrite !andb_true_iff, negb_true_iff. tauto.
+Qed.
+
+Lemma no_candidates_no_pending m :
+  RI false None m -> candidates m = [] -> ~ pending (Q m).
+Proof.
+  intros R Ec (g & Hg & Hc). destruct R.
+  rewrite ri_cache0 in Hg. rewrite ri_negd0, ri_bits0 in Hc.
+  assert (X : In (true, g) (candidates m)) by (unfold candidates; apply filter_In; auto).
+  rewrite Ec in X. exact X.
+Qed.
+
+Lemma RI_choices rv x ch m : RI rv x m -> RI rv x (set_choices ch m).
+Proof. intro R. apply (RI_frame rv x m); [unfold frame; simpl; tauto | reflexivity | exact R]. Qed.
+
+Lemma PostNF_stuck rv x m : H m -> RI rv x m -> PostNF m Stuck.
+Proof. intros HH R. unfold PostNF. destruct R. auto. Qed.
+
+Lemma init_loop_ok fuel : forall m fo m' r,
+  init_loop fuel c m fo = (m', r) -> H m -> RI false None m ->
+  (forall f, fo = Some f ->
+     f_neg f = true /\ forced fs (Q m) f (m_bits m) /\ (forall rq, ~ In (rq, f) (m_cache m)) /\
+     mem (f_space f) (m_negd m) = false) ->
+  PostNF m' r.
+Proof.
+  induction fuel as [|k IH]; intros m fo m' r E HH R Hfo; simpl in E.
+  - inversion E; subst. eapply PostNF_stuck; eauto.
+  - destruct fo as [f|].
+    + destruct (Hfo f eq_refl) as (F1 & F2 & F3 & F4).
+      destruct (m_choices m) as [|ch rest] eqn:Ech.
+      * inversion E; subst. eapply PostNF_stuck; eauto.
+      * destruct (negb (bytes_eqb ch (f_space f))).
+        -- inversion E; subst. eapply PostNF_stuck; [exact HH | apply RI_choices; exact R].
+        -- destruct (after_pick c (set_choices rest m) true f) as [m1 r1] eqn:Ea.
+           assert (PK : pick_ok false None (set_choices rest m) true f).
+           { unfold pick_ok. simpl. split; [exact F1|]. split; [exact F4|]. split; [discriminate|].
+             right. split; [exact F2|exact F3]. }
+           pose proof (after_pick_ok false None _ true f m1 r1 Ea HH (RI_choices _ _ rest m R) PK) as PP.
+           pose proof (PostPick_NF _ _ _ PP) as PN.
+           destruct r1 as [[mr|]|e|]; inversion E; subst; auto.
+           destruct PP as (P1 & P2 & P3 & _). unfold PostNF. auto.
+    + destruct (select m) as [m1 rs] eqn:Es.
+      destruct (select_ok m m1 rs Es) as (SQ & SF & SR).
+      assert (HH1 : H m1).
+      { unfold select in Es. destruct (candidates m); [inversion Es; subst; exact HH|].
+        destruct (m_choices m); [inversion Es; subst; exact HH|].
+        destruct (cache_get _ _) as [e|]; [destruct (_ && _)|]; inversion Es; subst; exact HH. }
+      assert (R1 : RI false None m1) by (apply (RI_frame false None m m1); auto).
+      destruct rs as [[[req f]|]|e|].
+      * destruct SR as (S1 & S2 & S3). destruct SF as (Fb & Fn & Fc & Fl & Ft).
+        destruct (cand_true _ _ _ S2) as (C1 & C2 & C3). simpl in C1, C2, C3.
+        destruct (after_pick c m1 req f) as [m2 r2] eqn:Ea.
+        assert (PK : pick_ok false None m1 req f).
+        { unfold pick_ok. rewrite Fn, Fc, Fb. split; [exact C2|]. split; [exact C1|]. split; [discriminate|].
+          left. split; [exact S1|]. split; [exact C3|]. intros _ Er g Hg. apply S3; auto. }
+        pose proof (after_pick_ok false None m1 req f m2 r2 Ea HH1 R1 PK) as PP.
+        pose proof (PostPick_NF _ _ _ PP) as PN.
+        destruct r2 as [[mr|]|e|]; inversion E; subst; auto.
+        destruct PP as (P1 & P2 & P3 & P4 & P5).
+        eapply IH; eauto. discriminate.
+      * inversion E; subst; clear E. destruct R1. unfold PostNF.
+        split; [exact HH1|]. split; [auto|]. repeat split; auto.
+        -- intro X. rewrite has_lor_r in X. discriminate.
+        -- intros _. right. split; [reflexivity|]. rewrite SQ. apply no_candidates_no_pending; auto.
+      * inversion E; subst. unfold PostNF. destruct R1. split; [auto|]. split; [auto|]. intros e' X. congruence.
+      * inversion E; subst. eapply PostNF_stuck; eauto.
+Qed.
+
+(* ------------------------------------------------------------------ the receiver's selection loop *)
+
+Lemma accept_spec ca negd st sp e :
+  accept ca negd st sp = Some e -> In e ca /\ cand negd st e = true.
+Proof.
+  unfold accept. destruct (cache_get sp ca) as [e0|] eqn:Eg; [|discriminate].
+  destruct (cand negd st e0) eqn:Ec; [|discriminate].
+  intro X. inversion X; subst. apply cache_get_In in Eg. tauto.
+Qed.
+
+Lemma recv_loop_ok fuel : forall m m' r,
+  recv_loop fuel c m = (m', r) -> H m -> RI true None m -> PostNF m' r.
+Proof.
+  induction fuel as [|k IH]; intros m m' r E HH R; simpl in E.
+  - inversion E; subst. eapply PostNF_stuck; eauto.
+  - unfold read in E. destruct (m_in m) as [|it rest] eqn:Ein.
+    + (* end of input *)
+      inversion E; subst; clear E. destruct R.
+      assert (X : cl_all fs (Q m) (EEof RPSelect)).
+      { unfold cl_all, cl_restart, cl_refuses. rewrite ri_hdr0. simpl. repeat split; auto; discriminate. }
+      unfold PostNF. rewrite H_emit, Q_emit. split; [split; [exact HH | exact X]|].
+      split; [simpl; exact ri_bits0|]. simpl. intros e' Y. congruence.
+    + set (m1 := emit (EIn RPSelect (m_bits m) it) (set_in rest m)) in *.
+      assert (X : cl_all fs (Q m) (EIn RPSelect (m_bits m) it)).
+      { destruct R. unfold cl_all, cl_restart, cl_refuses, cl_monotone. rewrite ri_hdr0, ri_bits0. simpl.
+        repeat split; auto; try discriminate. apply has_refl. }
+      assert (HH1 : H m1) by (unfold m1; rewrite H_emit; split; [exact HH | rewrite Q_set_in; exact X]).
+      assert (HQ1 : Q m1 = upd fs ws (Q m) (EIn RPSelect (m_bits m) it)) by (unfold m1; rewrite Q_emit, Q_set_in; reflexivity).
+      assert (F1 : frame m m1) by (unfold frame, m1; simpl; tauto).
+      destruct F1 as (Fb & Fn & Fc & Fl & Ft).
+      simpl in HQ1. rewrite selection_space_ws in HQ1.
+      destruct (selection_space c it) as [sp|] eqn:Esp.
+      * unfold acceptable in E. rewrite Fc, Fn, Fb in E.
+        rewrite (ri_cache _ _ _ R), (ri_negd _ _ _ R) in HQ1.
+        destruct (accept (m_cache m) (m_negd m) (m_bits m) sp) as [[req f]|] eqn:Eacc.
+        -- destruct (accept_spec _ _ _ _ _ Eacc) as (A1 & A2).
+           destruct (cand_true _ _ _ A2) as (C1 & C2 & C3). simpl in C1, C2, C3.
+           assert (R1 : RI true (Some f) m1).
+           { destruct R. constructor; rewrite ?HQ1, ?Fb, ?Fn, ?Fc, ?Fl; simpl; auto. }
+           destruct (after_pick c m1 req f) as [m2 r2] eqn:Ea.
+           assert (PK : pick_ok true (Some f) m1 req f).
+           { unfold pick_ok. rewrite Fn, Fc, Fb. split; [exact C2|]. split; [exact C1|]. split; [reflexivity|].
+             left. split; [exact A1|]. split; [exact C3|]. discriminate. }
+           pose proof (after_pick_ok true (Some f) m1 req f m2 r2 Ea HH1 R1 PK) as PP.
+           pose proof (PostPick_NF _ _ _ PP) as PN.
+           destruct r2 as [[mr|]|e|]; inversion E; subst; auto.
+           destruct PP as (P1 & P2 & P3 & P4 & P5).
+           eapply IH; eauto.
+        -- inversion E; subst; clear E. unfold PostNF. split; [exact HH1|].
+           rewrite HQ1. split; [simpl; apply (ri_bits _ _ _ R)|]. simpl. intros e' Y. congruence.
+      * inversion E; subst; clear E. unfold PostNF. split; [exact HH1|].
+        rewrite HQ1. split; [simpl; apply (ri_bits _ _ _ R)|]. simpl. intros e' Y. congruence.
+Qed.
+
+(* ------------------------------------------------------------------ reading / writing a features list *)
+
+(* no restart pending, nothing refused, nothing expected: callbacks are harmless *)
+Definition calm (m : mstate) : Prop :=
+  q_need_header (Q m) = false /\ q_refused (Q m) = None /\ q_expect (Q m) = None.
+
+Lemma read_children_ok st : forall cs m ca tot lr m' r,
+  read_children fs st cs m ca tot lr = (m', r) -> H m -> calm m ->
+  H m' /\ Q m' = Q m /\ frame m m' /\
+  match r with
+  | Good (ca', tot', lr') =>
+      ca' = adv_cache fs st cs ca /\ tot <= tot' /\ (tot' = tot -> ca' = ca) /\
+      (ukeys ca -> ukeys ca') /\
+      ((forall g, In (true, g) ca -> lr = true) -> forall g, In (true, g) ca' -> lr' = true) /\
+      (forall rq g, In (rq, g) ca' -> In (rq, g) ca \/ In (fname g) (adv_names cs))
+  | _ => True
+  end.
+Proof.
+  induction cs as [|ch rest IH]; intros m ca tot lr m' r E HH (C1 & C2 & C3); simpl in E.
+  - inversion E; subst. repeat split; auto using frame_refl.
+  - destruct ch as [sp lo req perr|].
+    + destruct (get_feature (sp, lo) fs) as [f|] eqn:Eg.
+      * destruct (emit_callback (EParse f) m (ex_intro _ f (or_introl eq_refl)) HH C1 C2 C3) as [A B].
+        destruct perr.
+        -- inversion E; subst. repeat split; auto; simpl; auto.
+        -- assert (C' : calm (emit (EParse f) m)) by (unfold calm; rewrite B; auto).
+           destruct (IH _ _ _ _ _ _ E A C') as (I1 & I2 & I3 & I4).
+           split; [exact I1|]. split; [rewrite I2; exact B|].
+           split; [unfold frame in *; simpl in I3; tauto|].
+           destruct r as [[[ca' tot'] lr']|e|]; auto.
+           destruct I4 as (J1 & J2 & J3 & J4 & J5 & J6). simpl. rewrite Eg.
+           split; [exact J1|]. split; [lia|]. split; [intro; lia|].
+           split; [intro U; apply J4; apply ukeys_step; exact U|].
+           split.
+           ++ intros Hlr g Hg. apply J5 with (g := g); [|exact Hg].
+              intros g' Hg'. apply In_cache_step in Hg'. destruct Hg' as [[Eq _]|Hin].
+              ** inversion Eq; subst. apply orb_true_r.
+              ** rewrite (Hlr g' Hin). reflexivity.
+           ++ intros rq g Hg. destruct (J6 rq g Hg) as [X|X]; [|right; simpl; right; exact X].
+              apply In_cache_step in X. destruct X as [[X _]|X]; [|left; exact X].
+              inversion X; subst. right. simpl. left. apply get_feature_spec in Eg. destruct Eg as [_ Eg]. symmetry. exact Eg.
+      * destruct (IH _ _ _ _ _ _ E HH (conj C1 (conj C2 C3))) as (I1 & I2 & I3 & I4).
+        split; [exact I1|]. split; [exact I2|]. split; [exact I3|].
+        destruct r as [[[ca' tot'] lr']|e|]; auto.
+        destruct I4 as (J1 & J2 & J3 & J4 & J5 & J6). simpl. rewrite Eg.
+        split; [exact J1|]. split; [lia|]. split; [intro; lia|]. split; [exact J4|]. split; [exact J5|].
+        intros rq g Hg. destruct (J6 rq g Hg); [left|right; simpl; right]; auto.
+    + inversion E; subst. repeat split; auto using frame_refl.
+Qed.
+
+Lemma list_loop_ok st : forall l m ca lr tot names m' ca' lr' tot' names' err,
+  list_loop l st m ca lr tot names = (m', ca', lr', tot', names', err) -> H m -> calm m ->
+  H m' /\ Q m' = Q m /\ frame m m' /\
+  (err = false ->
+   ca' = listed_cache l st ca /\ names' = names ++ map fname (listed l st) /\
+   (ukeys ca -> ukeys ca') /\
+   ((forall g, In (true, g) ca -> lr = true) -> forall g, In (true, g) ca' -> lr' = true) /\
+   (forall rq g, In (rq, g) ca' -> In (rq, g) ca \/ In (fname g) (map fname (listed l st)))).
+Proof.
+  induction l as [|f rest IH]; intros m ca lr tot names m' ca' lr' tot' names' err E HH (C1 & C2 & C3); simpl in E.
+  - inversion E; subst. split; [exact HH|]. split; [reflexivity|]. split; [apply frame_refl|].
+    intros _. simpl. rewrite app_nil_r. repeat split; auto.
+  - unfold listed. simpl. fold (listed rest st). destruct (eligible f st) eqn:Ee.
+    + destruct (emit_callback (EList f) m (ex_intro _ f (or_intror eq_refl)) HH C1 C2 C3) as [A B].
+      destruct (f_lerr f).
+      * inversion E; subst. split; [exact A|]. split; [exact B|]. split; [unfold frame; simpl; tauto|]. discriminate.
+      * assert (C' : calm (emit (EList f) m)) by (unfold calm; rewrite B; auto).
+        destruct (IH _ _ _ _ _ _ _ _ _ _ _ E A C') as (I1 & I2 & I3 & I4).
+        split; [exact I1|]. split; [rewrite I2; exact B|]. split; [unfold frame in *; simpl in I3; tauto|].
+        intro Eerr. destruct (I4 Eerr) as (J1 & J2 & J3 & J4 & J5).
+        split; [exact J1|]. split; [rewrite J2, <- app_assoc; reflexivity|].
+        split; [intro U; apply J3; apply ukeys_put; exact U|].
+        split.
+        -- intros Hlr g Hg. apply J4 with (g := g); [|exact Hg].
+           intros g' Hg'. apply In_cache_put in Hg'. destruct Hg' as [Eq|Hin].
+           ++ injection Eq as Hr Hg0. rewrite <- Hr. apply orb_true_r.
+           ++ rewrite (Hlr g' Hin). reflexivity.
+        -- intros rq g Hg. destruct (J5 rq g Hg) as [X|X]; [|right; simpl; right; exact X].
+           apply In_cache_put in X. destruct X as [X|X]; [|left; exact X].
+           inversion X; subst. right. simpl. left. reflexivity.
+    + apply (IH _ _ _ _ _ _ _ _ _ _ _ E HH (conj C1 (conj C2 C3))).
+Qed.
+
+Definition Rdy (m : mstate) : Prop := has (m_bits m) st_Ready = true -> q_self_ready (Q m) = true.
+
+(* what holds when negotiateFeatures is entered *)
+Definition PreNF (m : mstate) (first : bool) : Prop :=
+  q_last (Q m) = m_bits m /\ q_negd (Q m) = m_negd m /\ calm m /\
+  (first = true -> q_nlists (Q m) = 0 /\ m_negd m = []) /\ Rdy m.
+
+Lemma write_features_ok m first m' r :
+  write_features c m = (m', r) -> H m -> PreNF m first ->
+  match r with
+  | Good _ => H m' /\ RI true None m'
+  | Bad e => PostNF m' (Bad e)
+  | Stuck => False
+  end.
+Proof.
+  unfold write_features. intros E HH (P1 & P2 & (C1 & C2 & C3) & P4 & P5).
+  destruct (list_loop fs (m_bits m) m [] false 0 []) as [[[[[m1 ca] lr] tot] names] err] eqn:El.
+  destruct (list_loop_ok _ _ _ _ _ _ _ _ _ _ _ _ _ El HH (conj C1 (conj C2 C3))) as (A & B & (Fb & Fn & Fc & Fl & Ft) & K).
+  set (m2 := set_list ca tot lr m1) in *.
+  assert (X : cl_all fs (Q m2) (EOut (WFeatures (m_bits m) names (negb err)))).
+  { unfold m2. rewrite Q_set_list, B. unfold cl_all, cl_restart, cl_refuses, cl_monotone, cl_advertises.
+    rewrite C1, C2, C3, P1. simpl. repeat split; auto; try discriminate; try apply has_refl.
+    destruct err; simpl; [exact I|]. destruct (K eq_refl) as (_ & K2 & _). exact K2. }
+  destruct err; inversion E; subst m' r; clear E.
+  - unfold PostNF. split; [apply H_emit; split; [exact A | exact X]|]. rewrite Q_emit.
+    unfold m2. rewrite Q_set_list, B. simpl. split; [rewrite Fb; exact P1|]. intros e' Y. congruence.
+  - destruct (K eq_refl) as (K1 & K2 & K3 & K4 & K5). simpl in K2.
+    split; [apply H_emit; split; [exact A | exact X]|].
+    constructor; rewrite ?Q_emit; unfold m2; rewrite ?Q_set_list, ?B; simpl.
+    + reflexivity.
+    + rewrite Fb. exact P1.
+    + rewrite Fn. exact P2.
+    + symmetry. exact K1.
+    + exact C1.
+    + exact C3.
+    + exact C2.
+    + rewrite Fb. exact P5.
+    + intros g Hg. apply K4 with (g := g); [intros ? []|exact Hg].
+    + intros rq g Hg. destruct (K5 rq g Hg) as [[]|Y]. rewrite K2. exact Y.
+    + apply K3. apply ukeys_nil.
+Qed.
+
+Lemma after_read_ok m first m' r :
+  after_read c m first = (m', r) -> H m -> RI false None m ->
+  (first = true -> q_nlists (Q m) = 1 /\ m_negd m = []) -> (m_total m = 0 -> m_cache m = []) ->
+  PostNF m' r.
+Proof.
+  unfold after_read. intros E HH R Hf Ht.
+  assert (Tail : forall m' r,
+     match m_total m, m_cache m with
+     | O, _ => (m, Good (st_Ready, false))
+     | _, [] => (m, Bad EOther)
+     | _, _ => init_loop (S (length (m_cache m))) c m None
+     end = (m', r) -> PostNF m' r).
+  { clear E m' r. intros m' r E. destruct (m_total m) eqn:Et.
+    - inversion E; subst; clear E. unfold PostNF. destruct R.
+      split; [exact HH|]. split; [auto|]. repeat split; auto.
+      + intro X. rewrite has_lor_r in X. discriminate.
+      + intros _. right. split; [reflexivity|]. intros (g & Hg & _). rewrite ri_cache0, (Ht eq_refl) in Hg. exact Hg.
+    - destruct (m_cache m) eqn:Ec.
+      + inversion E; subst. unfold PostNF. destruct R. split; [auto|]. split; [auto|]. intros e' Y. congruence.
+      + rewrite <- Ec in E. eapply init_loop_ok; eauto. discriminate. }
+  destruct (first && negb (match cache_get ns_StartTLS (m_cache m) with Some _ => true | None => false end)
+            && negb (has (m_bits m) st_Secure)) eqn:Eforce; [|apply Tail; exact E].
+  destruct (find_space ns_StartTLS fs) as [f|] eqn:Ef; [|apply Tail; exact E].
+  destruct (f_neg f) eqn:En; [|apply Tail; exact E].
+  apply andb_true_iff in Eforce. destruct Eforce as [Eforce E3]. apply andb_true_iff in Eforce. destruct Eforce as [E1 E2].
+  apply negb_true_iff in E2, E3. subst first. destruct (Hf eq_refl) as [Hn Hd].
+  destruct (find_space_spec _ _ _ Ef) as [_ Esp].
+  eapply init_loop_ok; eauto.
+  intros f' Eq. inversion Eq; subst f'. split; [exact En|]. split.
+  - unfold forced. rewrite (ri_recv _ _ _ R). auto.
+  - split.
+    + intros rq Hin. apply In_cache_get in Hin. unfold ckey in Hin. simpl in Hin. rewrite Esp in Hin.
+      destruct (cache_get ns_StartTLS (m_cache m)); [discriminate | apply Hin; reflexivity].
+    + rewrite Hd. reflexivity.
+Qed.
+
+(* ------------------------------------------------------------------ negotiateFeatures *)
+
+Lemma upd_features_in_other q st it :
+  features_of (Some it) = None ->
+  q_last (upd fs ws q (EIn RPFeatures st it)) = q_last q /\
+  q_refused (upd fs ws q (EIn RPFeatures st it)) = q_refused q.
+Proof. destruct it as [[] []]; simpl; auto. Qed.
+
+Lemma negotiate_features_ok m first m' r :
+  negotiate_features c m first = (m', r) -> H m -> PreNF m first -> PostNF m' r.
+Proof.
+  unfold negotiate_features. intros E HH P.
+  destruct (server m) eqn:Es.
+  - destruct (write_features c m) as [m1 r1] eqn:Ew.
+    pose proof (write_features_ok m first m1 r1 Ew HH P) as W.
+    destruct r1 as [u|e|]; [|inversion E; subst; exact W|contradiction].
+    destruct W as [W1 W2]. eapply recv_loop_ok; eauto.
+  - destruct P as (P1 & P2 & (C1 & C2 & C3) & P4 & P5).
+    unfold read in E. destruct (m_in m) as [|it rest] eqn:Ein.
+    + simpl in E. inversion E; subst; clear E.
+      assert (X : cl_all fs (Q m) (EEof RPFeatures)).
+      { unfold cl_all, cl_restart, cl_refuses. rewrite C1. simpl. repeat split; auto; discriminate. }
+      unfold PostNF. split; [apply H_emit; split; [exact HH | exact X]|]. rewrite Q_emit.
+      split; [simpl; exact P1|]. simpl. intros e' Y. congruence.
+    + set (m1 := emit (EIn RPFeatures (m_bits m) it) (set_in rest m)) in *.
+      assert (X : cl_all fs (Q m) (EIn RPFeatures (m_bits m) it)).
+      { unfold cl_all, cl_restart, cl_refuses, cl_monotone. rewrite C1, P1. simpl.
+        repeat split; auto; try discriminate. apply has_refl. }
+      assert (HH1 : H m1) by (unfold m1; apply H_emit; split; [exact HH | rewrite Q_set_in; exact X]).
+      assert (HQ1 : Q m1 = upd fs ws (Q m) (EIn RPFeatures (m_bits m) it)) by (unfold m1; rewrite Q_emit, Q_set_in; reflexivity).
+      destruct (features_of (Some it)) as [cs|] eqn:Ef.
+      * assert (Eit : it = mkItem false (PFeatures cs)).
+        { destruct it as [[] []]; simpl in Ef; try discriminate. inversion Ef. reflexivity. }
+        subst it. simpl in HQ1.
+        destruct (read_children fs (m_bits m1) cs m1 [] 0 false) as [m2 r2] eqn:Er.
+        assert (Cm1 : calm m1) by (unfold calm; rewrite HQ1; simpl; auto).
+        destruct (read_children_ok _ _ _ _ _ _ _ _ Er HH1 Cm1) as (A & B & (Fb & Fn & Fc & Fl & Ft) & K).
+        destruct r2 as [[[ca tot] lr]|e|].
+        -- destruct K as (K1 & K2 & K3 & K4 & K5 & K6).
+           set (m3 := set_list ca tot lr m2) in *.
+           assert (R3 : RI false None m3).
+           { constructor; unfold m3; rewrite ?Q_set_list, ?B, ?HQ1; simpl.
+             - reflexivity.
+             - rewrite Fb. exact P1.
+             - rewrite Fn. exact P2.
+             - symmetry. exact K1.
+             - exact C1.
+             - exact C3.
+             - exact C2.
+             - rewrite Fb. exact P5.
+             - intros g Hg. apply K5 with (g := g); [intros ? []|exact Hg].
+             - intros rq g Hg. destruct (K6 rq g Hg) as [[]|Y]. exact Y.
+             - apply K4. apply ukeys_nil. }
+           assert (A3 : H m3) by exact A.
+           apply (after_read_ok m3 first m' r E A3 R3).
+           ++ intro Ef1. destruct (P4 Ef1) as [N1 N2]. unfold m3. rewrite Q_set_list, B, HQ1. simpl.
+              rewrite N1, Fn. simpl. auto.
+           ++ unfold m3. simpl. intro Et. apply K3. lia.
+        -- inversion E; subst. unfold PostNF. split; [exact A|]. rewrite B, HQ1. simpl.
+           split; [rewrite Fb; exact P1|]. intros e' Y. congruence.
+        -- inversion E; subst. unfold PostNF. split; [exact A|]. rewrite B, HQ1. simpl.
+           split; [rewrite Fb; exact P1|]. exact C2.
+      * destruct (upd_features_in_other (Q m) (m_bits m) it Ef) as [U1 U2].
+        inversion E; subst. unfold PostNF. split; [exact HH1|]. rewrite HQ1, U1, U2.
+        split; [exact P1|]. intros e' Y. congruence.
+Qed.
+
+(* ------------------------------------------------------------------ negotiator, negotiateSession *)
+
+Record Rel (m : mstate) (ns : nstate) (istee : bool) : Prop := mkRel {
+  rel_bits : q_last (Q m) = m_bits m;
+  rel_negd : q_need_header (Q m) = false -> q_negd (Q m) = m_negd m;
+  rel_rst : ns_restart ns = true -> m_negd m = [];
+  rel_hdr : q_need_header (Q m) = true -> ns_restart ns = true;
+  rel_first : ns_first ns = true -> q_nlists (Q m) = 0 /\ m_negd m = [];
+  rel_tee : c_tee c = true -> istee = false -> ns_restart ns = true;
+  rel_exp : q_expect (Q m) = None;
+  rel_ref : q_refused (Q m) = None }.
+
+Lemma expect_header_ok m m1 r :
+  expect_header m = (m1, r) -> H m ->
+  q_last (Q m) = m_bits m -> q_refused (Q m) = None -> q_expect (Q m) = None ->
+  (q_need_header (Q m) = true -> server m = true) ->
+  H m1 /\ Q m1 = Q m /\ frame m m1.
+Proof.
+  unfold expect_header, read. intros E HH Hb Hr He Hs.
+  destruct (m_in m) as [|it rest]; inversion E; subst; clear E.
+  - assert (X : cl_all fs (Q m) (EEof RPHeader)).
+    { unfold cl_all, cl_restart, cl_refuses. simpl. repeat split; auto. intro Y. rewrite Hb. exact (Hs Y). }
+    split; [apply H_emit; auto|]. split; [rewrite Q_emit; reflexivity | unfold frame; simpl; tauto].
+  - assert (X : cl_all fs (Q m) (EIn RPHeader (m_bits m) it)).
+    { unfold cl_all, cl_restart, cl_refuses, cl_monotone. simpl. repeat split; auto.
+      - rewrite Hb. apply has_refl.
+      - intro Y. rewrite Hb. exact (Hs Y). }
+    split; [apply H_emit; rewrite Q_set_in; auto|]. split; [rewrite Q_emit, Q_set_in; reflexivity | unfold frame; simpl; tauto].
+Qed.
+
+Lemma send_header_ok m m1 r :
+  send_header c m = (m1, r) -> H m -> q_refused (Q m) = None -> q_expect (Q m) = None ->
+  H m1 /\ frame m m1 /\
+  match r with
+  | Good _ => Q m1 = upd fs ws (Q m) (EOut WHeader)
+  | _ => Q m1 = Q m
+  end.
+Proof.
+  unfold send_header. intros E HH Hr He.
+  assert (XH : forall b, cl_all fs (Q m) (EHandshake b)).
+  { intro b. unfold cl_all, cl_restart, cl_refuses. simpl. repeat split; auto. }
+  assert (XW : cl_all fs (Q m) (EOut WHeader)).
+  { unfold cl_all, cl_restart, cl_refuses. simpl. repeat split; auto. }
+  destruct (m_tls m && m_hs m).
+  - destruct (c_hs_ok c); inversion E; subst; clear E.
+    + split.
+      * apply H_emit. split; [apply H_emit; split; [exact HH | rewrite Q_set_hs; apply XH]|].
+        rewrite Q_emit, Q_set_hs. exact XW.
+      * split; [unfold frame; simpl; tauto|]. rewrite !Q_emit, Q_set_hs. reflexivity.
+    + split; [apply H_emit; split; [exact HH | rewrite Q_set_hs; apply XH]|].
+      split; [unfold frame; simpl; tauto|]. rewrite Q_emit, Q_set_hs. reflexivity.
+  - inversion E; subst; clear E. split; [apply H_emit; auto|].
+    split; [unfold frame; simpl; tauto|]. rewrite Q_emit. reflexivity.
+Qed.
+
+Lemma PostNF_bad m e : H m -> q_last (Q m) = m_bits m -> q_refused (Q m) = None -> PostNF m (Bad e).
+Proof. intros. unfold PostNF. repeat split; auto. intros e' Y. congruence. Qed.
+
+Lemma PreNF_after_header m m1 first :
+  Q m1 = upd fs ws (Q m) (EOut WHeader) -> frame m m1 ->
+  q_last (Q m) = m_bits m -> q_refused (Q m) = None -> q_expect (Q m) = None ->
+  m_negd m = [] -> (first = true -> q_nlists (Q m) = 0) -> has (m_bits m) st_Ready = false ->
+  PreNF m1 first.
+Proof.
+  intros HQ (Fb & Fn & Fc & Fl & Ft) Hb Hr He Hn Hf Hnr.
+  unfold PreNF, calm, Rdy. rewrite HQ. simpl. rewrite Fb, Fn, Hn.
+  split; [exact Hb|]. split; [reflexivity|]. split; [auto|]. split; [auto|].
+  intro X. congruence.
+Qed.
+
+Lemma frame_trans a b d : frame a b -> frame b d -> frame a d.
+Proof. unfold frame. intuition congruence. Qed.
+
+Lemma header_exchange_ok m ns istee m1 r1 :
+  (if ns_restart ns
+   then if server m
+        then match expect_header m with (ma, Good _) => send_header c ma | other => other end
+        else match send_header c m with (ma, Good _) => expect_header ma | other => other end
+   else (m, Good tt)) = (m1, r1) ->
+  H m -> Rel m ns istee -> has (m_bits m) st_Ready = false ->
+  H m1 /\ q_last (Q m1) = m_bits m1 /\ q_refused (Q m1) = None /\
+  match r1 with Good _ => PreNF m1 (ns_first ns) | Stuck => False | Bad _ => True end.
+Proof.
+  intros E1 HH R Hnr. destruct R.
+  destruct (ns_restart ns) eqn:Ers.
+  - pose proof (rel_rst0 eq_refl) as Hn0.
+    assert (Hf0 : ns_first ns = true -> q_nlists (Q m) = 0) by (intro X; apply rel_first0; exact X).
+    destruct (server m) eqn:Esv.
+    + destruct (expect_header m) as [ma ra] eqn:Ee.
+      destruct (expect_header_ok m ma ra Ee HH rel_bits0 rel_ref0 rel_exp0 (fun _ => Esv)) as (A & B & F).
+      pose proof F as (Fb & Fn & Fc & Fl & Ft).
+      destruct ra as [u|e|].
+      * assert (Hr' : q_refused (Q ma) = None) by (rewrite B; exact rel_ref0).
+        assert (He' : q_expect (Q ma) = None) by (rewrite B; exact rel_exp0).
+        destruct (send_header_ok ma m1 r1 E1 A Hr' He') as (A2 & G & B2).
+        pose proof G as (Gb & Gn & Gc & Gl & Gt).
+        split; [exact A2|].
+        destruct r1 as [u1|e1|].
+        -- rewrite B2, B. simpl. rewrite Gb, Fb. split; [exact rel_bits0|]. split; [exact rel_ref0|].
+           apply (PreNF_after_header m m1); auto. rewrite B2, B. reflexivity. eapply frame_trans; eauto.
+        -- rewrite B2, B, Gb, Fb. auto.
+        -- unfold send_header in E1. destruct (m_tls ma && m_hs ma); [destruct (c_hs_ok c)|]; inversion E1.
+      * inversion E1; subst. rewrite B, Fb. auto.
+      * unfold expect_header in Ee. destruct (read RPHeader m). destruct (is_good_header o); inversion Ee.
+    + destruct (send_header c m) as [ma ra] eqn:Ese.
+      destruct (send_header_ok m ma ra Ese HH rel_ref0 rel_exp0) as (A & F & B).
+      pose proof F as (Fb & Fn & Fc & Fl & Ft).
+      destruct ra as [u|e|].
+      * assert (Hb' : q_last (Q ma) = m_bits ma) by (rewrite B; simpl; rewrite Fb; exact rel_bits0).
+        assert (Hr' : q_refused (Q ma) = None) by (rewrite B; exact rel_ref0).
+        assert (He' : q_expect (Q ma) = None) by (rewrite B; exact rel_exp0).
+        assert (Hs' : q_need_header (Q ma) = true -> server ma = true) by (rewrite B; simpl; discriminate).
+        destruct (expect_header_ok ma m1 r1 E1 A Hb' Hr' He' Hs') as (A2 & B2 & G).
+        pose proof G as (Gb & Gn & Gc & Gl & Gt).
+        split; [exact A2|]. rewrite B2. split; [rewrite Gb; exact Hb'|]. split; [exact Hr'|].
+        destruct r1 as [u1|e1|]; auto.
+        -- apply (PreNF_after_header m m1); auto. rewrite B2, B. reflexivity. eapply frame_trans; eauto.
+        -- unfold expect_header in E1. destruct (read RPHeader ma). destruct (is_good_header o); inversion E1.
+      * inversion E1; subst. rewrite B, Fb. auto.
+      * unfold send_header in Ese. destruct (m_tls m && m_hs m); [destruct (c_hs_ok c)|]; inversion Ese.
+  - inversion E1; subst; clear E1. split; [exact HH|]. split; [exact rel_bits0|]. split; [exact rel_ref0|].
+    assert (Hh : q_need_header (Q m1) = false).
+    { destruct (q_need_header (Q m1)) eqn:Y; [|reflexivity]. pose proof (rel_hdr0 eq_refl). discriminate. }
+    unfold PreNF, calm, Rdy.
+    split; [exact rel_bits0|]. split; [exact (rel_negd0 Hh)|]. split; [auto|]. split; [exact rel_first0|].
+    intro X. congruence.
+Qed.
+
+Lemma negotiator_body_ok m ns istee m' r :
+  negotiator_body c m ns = (m', r) -> H m -> Rel m ns istee -> has (m_bits m) st_Ready = false ->
+  match r with
+  | Good (mask, restart, ns1) => PostNF m' (Good (mask, restart)) /\ ns1 = mkNS restart false
+  | Bad e => PostNF m' (Bad e)
+  | Stuck => PostNF m' Stuck
+  end.
+Proof.
+  unfold negotiator_body. intros E HH R Hnr.
+  destruct (if ns_restart ns then _ else _) as [m1 r1] eqn:E1.
+  destruct (header_exchange_ok m ns istee m1 r1 E1 HH R Hnr) as (A & B & C & D).
+  destruct r1 as [u|e|]; [| inversion E; subst; apply PostNF_bad; auto | contradiction].
+  destruct (negotiate_features c m1 (ns_first ns)) as [m2 r2] eqn:En.
+  pose proof (negotiate_features_ok m1 (ns_first ns) m2 r2 En A D) as PN.
+  destruct r2 as [[mask restart]|e|]; inversion E; subst; auto.
+Qed.
+
+Definition Est (m : mstate) : Prop :=
+  has (m_bits m) st_Ready = true ->
+  q_self_ready (Q m) = true \/ (q_need_header (Q m) = false /\ ~ pending (Q m)).
+
+Definition RelW (m : mstate) (ns : nstate) (istee : bool) : Prop :=
+  (has (m_bits m) st_Ready = false -> Rel m ns istee) /\
+  has (m_bits m) (q_last (Q m)) = true /\ Est m /\ q_refused (Q m) = None.
+
+Definition Final (r : result) : Prop :=
+  H (r_state r) /\ established_partial (Q (r_state r)) r /\ refusal_reported (Q (r_state r)) r /\
+  has (r_bits r) (q_last (Q (r_state r))) = true.
+
+Lemma Final_noerr cl m :
+  H m -> has (m_bits m) (q_last (Q m)) = true -> q_refused (Q m) = None ->
+  (cl = ROk -> has (m_bits m) st_Ready = true /\ Est m) ->
+  Final (mkR cl (m_bits m) m).
+Proof.
+  intros HH Hb Hr Hok. unfold Final, established_partial, refusal_reported. simpl.
+  split; [exact HH|]. split.
+  - intro Ec. destruct (Hok Ec) as [Y1 Y2]. split; [exact Y1|]. split; [exact Hb|].
+    intro Hs. destruct (Y2 Y1) as [Z|Z]; [congruence | exact Z].
+  - split; [intros e Y; congruence | exact Hb].
+Qed.
+
+Lemma session_loop_ok fuel : forall m ns istee,
+  H m -> RelW m ns istee -> Final (session_loop fuel c m ns istee).
+Proof.
+  induction fuel as [|k IH]; intros m ns istee HH (W1 & W2 & W3 & W4); simpl.
+  - apply Final_noerr; auto. discriminate.
+  - destruct (has (m_bits m) st_Ready) eqn:Erd.
+    + apply Final_noerr; auto.
+    + pose proof (W1 eq_refl) as R.
+      destruct (c_tee c && negb istee) eqn:Etee.
+      * (* the tee-wrapping call *)
+        apply andb_true_iff in Etee. destruct Etee as [Et Ei]. apply negb_true_iff in Ei. subst istee.
+        destruct R. pose proof (rel_tee0 Et eq_refl) as Ers. pose proof (rel_rst0 Ers) as Hn0.
+        apply IH; [exact HH|]. unfold RelW, Est. simpl. rewrite Q_set_negd.
+        split; [|auto]. intros _. constructor; simpl; rewrite ?Q_set_negd.
+        -- exact rel_bits0.
+        -- intro X. rewrite (rel_negd0 X). exact Hn0.
+        -- reflexivity.
+        -- exact rel_hdr0.
+        -- intro X. split; [apply rel_first0; exact X | reflexivity].
+        -- discriminate.
+        -- exact rel_exp0.
+        -- exact rel_ref0.
+      * destruct (negotiator_body c m ns) as [m1 rb] eqn:Eb.
+        pose proof (negotiator_body_ok m ns istee m1 rb Eb HH R Erd) as NB.
+        destruct rb as [[[mask restart] ns1]|e|].
+        -- destruct NB as [(P1 & P2 & P3 & P4 & P5 & P6 & P7 & P8) Ens]. subst ns1.
+           set (m2 := if restart then set_negd [] m1 else m1).
+           assert (Q2 : Q m2 = Q m1) by (unfold m2; destruct restart; reflexivity).
+           assert (B2 : m_bits m2 = m_bits m1) by (unfold m2; destruct restart; reflexivity).
+           apply IH; [unfold m2; destruct restart; exact P1|].
+           unfold RelW, Est. simpl. rewrite Q_set_bits, Q2, B2.
+           split; [|split; [|split]].
+           ++ intro Hnr. pose proof (P7 Hnr) as Heq. rewrite Heq. unfold m2 in *. clear Q2 B2.
+              destruct restart; constructor; simpl; rewrite ?Q_set_bits, ?Q_set_negd.
+              ** exact P2.
+              ** intro X. rewrite P5 in X. discriminate.
+              ** reflexivity.
+              ** reflexivity.
+              ** discriminate.
+              ** reflexivity.
+              ** exact P4.
+              ** exact P3.
+              ** exact P2.
+              ** intros _. exact (P6 eq_refl).
+              ** discriminate.
+              ** intro X. rewrite P5 in X. discriminate.
+              ** discriminate.
+              ** intros Et X. subst istee. rewrite Et in Etee. discriminate.
+              ** exact P4.
+              ** exact P3.
+           ++ rewrite P2. apply has_lor_l. apply has_refl.
+           ++ intro X. destruct (P8 X) as [Y|[Y1 Y2]]; [left; exact Y|right].
+              split; [rewrite P5; exact Y1 | exact Y2].
+           ++ exact P3.
+        -- destruct NB as (P1 & P2 & P3). unfold Final, established_partial, refusal_reported. simpl.
+           split; [exact P1|]. split; [discriminate|]. split.
+           ++ intros e' Y. rewrite (P3 e' Y). reflexivity.
+           ++ rewrite P2. apply has_refl.
+        -- destruct NB as (P1 & P2 & P3). unfold Final, established_partial, refusal_reported. simpl.
+           split; [exact P1|]. split; [discriminate|]. split.
+           ++ intros e' Y. congruence.
+           ++ rewrite P2. apply has_refl.
+Qed.
+
 End Inv.
+
+(* ------------------------------------------------------------------ the run *)
+
+Lemma run_final c bits clear tls outs choices :
+  let r := run c bits clear tls outs choices in
+  holds (c_feats c) (c_ws c) (cl_all (c_feats c)) (mon0 bits) (trace r) /\
+  let q := final (c_feats c) (c_ws c) (mon0 bits) (trace r) in
+  established_partial q r /\ refusal_reported q r /\ has (r_bits r) (q_last q) = true.
+Proof.
+  unfold run.
+  pose proof (session_loop_ok c bits (fuel_for clear tls) (init_state bits clear tls outs choices) (mkNS true true) false) as F.
+  apply F.
+  - exact I.
+  - unfold RelW, Est. simpl. split; [|split; [apply has_refl|split; [|reflexivity]]].
+    + intros _. constructor; simpl; auto; discriminate.
+    + intros _. right. split; [reflexivity|]. intros (g & [] & _).
+Qed.
+
+(* ------------------------------------------------------------------ the clauses, one by one *)
+
+Section Clauses.
+Variables (c : config) (bits : N) (clear tls : list pitem) (outs : list outcome) (choices : list bytes).
+Let r := run c bits clear tls outs choices.
+Let fs := c_feats c.
+Let ws := c_ws c.
+
+Lemma all_clauses : holds fs ws (cl_all fs) (mon0 bits) (trace r).
+Proof. apply (run_final c bits clear tls outs choices). Qed.
+
+Lemma clause_advertised : holds fs ws (cl_advertised fs) (mon0 bits) (trace r).
+Proof. eapply holds_impl; [|apply all_clauses]. unfold cl_all. tauto. Qed.
+
+Lemma clause_prerequisites : holds fs ws (cl_prerequisites fs) (mon0 bits) (trace r).
+Proof. eapply holds_impl; [|apply all_clauses]. unfold cl_all. tauto. Qed.
+
+Lemma clause_voluntary_first : holds fs ws cl_voluntary_first (mon0 bits) (trace r).
+Proof. eapply holds_impl; [|apply all_clauses]. unfold cl_all. tauto. Qed.
+
+Lemma clause_monotone :
+  holds fs ws cl_monotone (mon0 bits) (trace r) /\
+  has (r_bits r) (q_last (final fs ws (mon0 bits) (trace r))) = true.
+Proof.
+  split; [eapply holds_impl; [|apply all_clauses]; unfold cl_all; tauto|].
+  apply (run_final c bits clear tls outs choices).
+Qed.
+
+Lemma clause_restart : holds fs ws cl_restart (mon0 bits) (trace r).
+Proof. eapply holds_impl; [|apply all_clauses]. unfold cl_all. tauto. Qed.
+
+Lemma clause_advertises : holds fs ws (cl_advertises fs) (mon0 bits) (trace r).
+Proof. eapply holds_impl; [|apply all_clauses]. unfold cl_all. tauto. Qed.
+
+Lemma clause_refuses :
+  holds fs ws cl_refuses (mon0 bits) (trace r) /\
+  refusal_reported (final fs ws (mon0 bits) (trace r)) r.
+Proof.
+  split; [eapply holds_impl; [|apply all_clauses]; unfold cl_all; tauto|].
+  apply (run_final c bits clear tls outs choices).
+Qed.
+
+Lemma clause_established_partial : established_partial (final fs ws (mon0 bits) (trace r)) r.
+Proof. apply (run_final c bits clear tls outs choices). Qed.
+
+End Clauses.
+
+(* with the masks starttls.go declares, the forced attempt satisfies the prerequisites too *)
+Lemma not_secure_disj st : has st st_Secure = false -> disj st st_Secure = true.
+Proof.
+  unfold has, disj. change st_Secure with (N.ones 1). rewrite N.land_ones.
+  change (N.ones 1) with 1%N. change (2 ^ 1)%N with 2%N.
+  intro X. apply N.eqb_neq in X. apply N.eqb_eq.
+  assert (Hlt : (st mod 2 < 2)%N) by (apply N.mod_upper_bound; discriminate).
+  lia.
+Qed.
+
+Definition cl_eligible (q : mon) (e : event) : Prop :=
+  match e with ENeg f st _ => eligible f st = true | _ => True end.
+
+Lemma clause_prerequisites_builtin c bits clear tls outs choices :
+  (forall f, find_space ns_StartTLS (c_feats c) = Some f -> f_nec f = ft_starttls_nec /\ f_proh f = ft_starttls_proh) ->
+  holds (c_feats c) (c_ws c) cl_eligible (mon0 bits) (trace (run c bits clear tls outs choices)).
+Proof.
+  intro Hb. eapply holds_impl; [|apply clause_prerequisites].
+  intros q e. destruct e; simpl; auto.
+  intros [X|(F1 & F2 & F3 & F4)]; [exact X|].
+  destruct (Hb f F2) as [Hn Hp]. unfold eligible. rewrite Hn, Hp.
+  change ft_starttls_nec with 0%N. change ft_starttls_proh with st_Secure.
+  rewrite (not_secure_disj _ F4). unfold has. rewrite N.land_0_r. reflexivity.
+Qed.
